@@ -285,3 +285,157 @@ def build(tier, prop_functional="C06"):
         "IR binary ops on narrow integer types are lowered to the same 64-bit instruction (read off compile_binary_op's table, which is extracted)",
     ]
     return [u]
+
+
+# ======================================================================================================
+# const_eval_intrinsic: the u64 arms (C06 U6.4), verbatim inner matches of sway-core/src/ir_generation/const_eval.rs
+# ======================================================================================================
+CE = "sway-core/src/ir_generation/const_eval.rs"
+CE_HOST = {"kind": "fn", "name": "const_eval_intrinsic"}
+
+
+def _ce(scrutinee, nth):
+    return {"kind": "in_fn", "fn": CE_HOST, "what": "match", "scrutinee": scrutinee, "nth": nth}
+
+
+CE_SPECS = [
+    {"id": "arith", "file": CE, "locator": dict(_ce("intrinsic.kind", 0), arm0="Intrinsic::Add")},
+    {"id": "arith_res", "file": CE, "locator": _ce("result", 0)},
+    {"id": "bitw", "file": CE, "locator": dict(_ce("intrinsic.kind", 0), arm0="Intrinsic::And")},
+    {"id": "bitw_res", "file": CE, "locator": _ce("result", 2)},
+    {"id": "shift", "file": CE, "locator": dict(_ce("intrinsic.kind", 0), arm0="Intrinsic::Lsh")},
+    {"id": "shift_res", "file": CE, "locator": _ce("result", 5)},
+    {"id": "notw", "file": CE, "locator": {"kind": "in_fn", "fn": CE_HOST, "what": "match",
+                                            "scrutinee": "arg.get_content(lookup.context).ty.get_uint_width(lookup.context)"}},
+    {"id": "Intrinsic", "file": "sway-ast/src/intrinsics.rs", "locator": {"kind": "item", "item": "enum", "name": "Intrinsic", "attrs": "strip"}},
+    {"id": "i2b", "file": "sway-core/src/ir_generation/function.rs",
+     "locator": {"kind": "in_fn", "fn": {"kind": "impl_fn", "self_ty": "FnCompiler<'a>", "name": "compile_intrinsic_function"}, "what": "match", "scrutinee": "kind", "arm0": "Intrinsic::Add"}},
+    {"id": "BinaryOpKind", "file": "sway-ir/src/instruction.rs", "locator": {"kind": "item", "item": "enum", "name": "BinaryOpKind", "attrs": "strip"}},
+    {"id": "lower", "file": "sway-core/src/asm_generation/fuel/fuel_asm_builder.rs",
+     "locator": {"kind": "in_fn", "fn": {"kind": "impl_fn", "self_ty": "FuelAsmBuilder<'ir, 'eng>", "name": "compile_binary_op"}, "what": "match", "scrutinee": "op", "nth": 0}},
+]
+
+CE_ENV = r'''
+#![allow(unused, dead_code, unused_parens, unreachable_patterns, unreachable_code, non_snake_case, clippy::all)]
+include!("vm_alu.rs");
+use std::ops::{BitAnd, BitOr, BitXor, Not};
+use vm_alu::Out;
+// ---------------- environment (shims) ----------------
+#[derive(Clone, Debug, PartialEq)] pub struct Span;
+#[derive(Clone, Copy, Debug, PartialEq)] pub struct Type { pub width: Option<u16> }
+pub struct Ctx;
+impl Type { pub fn get_uint_width(&self, _c: &Ctx) -> Option<u16> { self.width } }
+pub struct Lookup<'a> { pub context: &'a Ctx }
+#[derive(Debug)] pub enum ConstEvalError { CannotBeEvaluatedToConst { span: Span } }
+#[derive(Debug, Clone, PartialEq)] pub enum ConstantValue { Uint(u64), Bool(bool) }
+#[derive(Debug, Clone, PartialEq)] pub struct ConstantContent { pub ty: Type, pub value: ConstantValue }
+pub struct Intr { pub kind: Intrinsic, pub span: Span }
+pub struct Arg { pub c: ConstantContent }
+impl Arg { pub fn get_content(&self, _c: &Ctx) -> &ConstantContent { &self.c } }
+// ---------------- extracted verbatim ----------------
+#[derive(Debug, Clone, Copy, PartialEq, Eq)]
+@Intrinsic@
+#[derive(Debug, Clone, Copy, PartialEq, Eq)]
+@BinaryOpKind@
+// const_eval_intrinsic, (Uint, Uint) arm of Add|Sub|Mul|Div|Mod: `let result = match intrinsic.kind {..}; match result {..}`
+pub fn ce_arith(intrinsic: &Intr, arg1: &u64, arg2: &u64, ty: Type) -> Result<Option<ConstantContent>, ConstEvalError> {
+    let result = @arith@;
+    @arith_res@
+}
+pub fn ce_bitw(intrinsic: &Intr, arg1: &u64, arg2: &u64, ty: Type) -> Result<Option<ConstantContent>, ConstEvalError> {
+    let result = @bitw@;
+    @bitw_res@
+}
+pub fn ce_shift(intrinsic: &Intr, arg1: &u64, arg2: &u64, ty: Type) -> Result<Option<ConstantContent>, ConstEvalError> {
+    let result = @shift@;
+    @shift_res@
+}
+// Not arm on Uint: `let n = match arg.get_content(..).ty.get_uint_width(..) {..};`
+pub fn ce_not(arg: &Arg, n: &u64, lookup: &Lookup) -> u64 {
+    let n = @notw@;
+    n
+}
+// compile_intrinsic_function: Intrinsic -> BinaryOpKind table; compile_binary_op: BinaryOpKind -> VirtualOp table
+pub fn i2b(kind: Intrinsic) -> BinaryOpKind { @i2b@ }
+#[derive(Clone, Copy, PartialEq, Debug)]
+pub enum VirtualOp { ADD((),(),()), SUB((),(),()), MUL((),(),()), DIV((),(),()), AND((),(),()), OR((),(),()), XOR((),(),()), MOD((),(),()), SRL((),(),()), SLL((),(),()) }
+pub enum Either<L, R> { Left(L), Right(R) }
+pub fn lower(op: &BinaryOpKind) -> Either<VirtualOp, ()> { let res_reg = (); let val1_reg = (); let val2_reg = (); @lower@ }
+pub fn vm_intrinsic(kind: Intrinsic, l: u64, r: u64, flag: u64) -> Out {
+    match lower(&i2b(kind)) {
+        Either::Left(VirtualOp::ADD(..)) => vm_alu::add(l, r, flag), Either::Left(VirtualOp::SUB(..)) => vm_alu::sub(l, r, flag),
+        Either::Left(VirtualOp::MUL(..)) => vm_alu::mul(l, r, flag), Either::Left(VirtualOp::DIV(..)) => vm_alu::div(l, r, flag),
+        Either::Left(VirtualOp::AND(..)) => vm_alu::and(l, r, flag), Either::Left(VirtualOp::OR(..)) => vm_alu::or(l, r, flag),
+        Either::Left(VirtualOp::XOR(..)) => vm_alu::xor(l, r, flag), Either::Left(VirtualOp::MOD(..)) => vm_alu::modulo(l, r, flag),
+        Either::Left(VirtualOp::SRL(..)) => vm_alu::srl(l, r, flag), Either::Left(VirtualOp::SLL(..)) => vm_alu::sll(l, r, flag),
+        _ => unreachable!(),
+    }
+}
+#[cfg(kani)]
+mod h {
+    use super::*;
+    fn any_flag() -> u64 { let f: u64 = kani::any(); kani::assume(f < 4); f }
+    fn post(kind: Intrinsic, l: u64, r: u64, res: Result<Option<ConstantContent>, ConstEvalError>) {
+        kani::cover!(res.is_ok());
+        match res {
+            Err(_) | Ok(None) => {}
+            Ok(Some(c)) => match c.value {
+                ConstantValue::Uint(v) => {
+                    let o = vm_intrinsic(kind, l, r, any_flag());
+                    assert!(o != Out::Panic, "OB: const-evaluated although the VM instruction panics (reverts)");
+                    assert!(o.value() == Some(v), "OB: const-evaluated value differs from the VM result");
+                }
+                _ => assert!(false, "OB: Uint operands evaluate to a non-Uint constant"),
+            },
+        }
+    }
+    fn w() -> Type { Type { width: if kani::any() { Some(kani::any()) } else { None } } }
+    @CE_HARNESSES@
+    #[kani::proof]
+    fn ce_not_w64() {
+        let x: u64 = kani::any();
+        let a = Arg { c: ConstantContent { ty: Type { width: Some(64) }, value: ConstantValue::Uint(x) } };
+        let v = ce_not(&a, &x, &Lookup { context: &Ctx });
+        assert!(vm_alu::not(x, any_flag()).value() == Some(v), "OB: const-evaluated NOT differs from the VM result (64-bit)");
+    }
+    #[kani::proof]
+    fn ce_not_narrow() {
+        let x: u64 = kani::any();
+        let wd: u16 = kani::any();
+        kani::assume(wd == 8 || wd == 16 || wd == 32);   // other widths are unreachable!() in the code: excluded by the call-site precondition
+        let a = Arg { c: ConstantContent { ty: Type { width: Some(wd) }, value: ConstantValue::Uint(x) } };
+        let v = ce_not(&a, &x, &Lookup { context: &Ctx });
+        assert!(vm_alu::not(x, any_flag()).value() == Some(v), "OB: const-evaluated NOT differs from the VM result (width < 64)");
+    }
+}
+'''
+
+
+def build_ceval(tier):
+    fr = vf.extract(CE_SPECS)
+    for k, tok in (("arith", "checked_add(*arg2)"), ("bitw", "bitand(arg2)"), ("shift", "checked_shl(arg2)"), ("arith_res", "ConstantValue::Uint(result)"),
+                   ("bitw_res", "ConstantValue::Uint(sum)"), ("shift_res", "ConstantValue::Uint(sum)"), ("i2b", "BinaryOpKind::Add")):
+        if tok not in fr[k]["text"]:
+            raise vf.Undecided("const_eval_intrinsic: fragment %s is not the expected (Uint, Uint) match (token %r missing)" % (k, tok))
+    src = CE_ENV
+    for k in fr:
+        src = src.replace("@%s@" % k, fr[k]["text"])
+    hs, obs = [], []
+    groups = [("arith", "ce_arith", ["Add", "Sub", "Mul", "Div", "Mod"]), ("bitw", "ce_bitw", ["And", "Or", "Xor"]), ("shift", "ce_shift", ["Lsh", "Rsh"])]
+    for _, fn, kinds in groups:
+        for k in kinds:
+            z = "#[kani::solver(z3)] " if k in ("Mul", "Div", "Mod") else ""
+            hs.append("#[kani::proof] %sfn ce_%s() { let (l, r): (u64, u64) = (kani::any(), kani::any()); let i = Intr { kind: Intrinsic::%s, span: Span }; post(i.kind, l, r, %s(&i, &l, &r, w())); }" % (z, k.lower(), k, fn))
+            obs.append(vf.Ob("ce_%s" % k.lower(), "C06", panic_prop="C17",
+                             what="const_eval_intrinsic (%s, Uint, Uint): Ok(Some(v)) ==> the VM instruction selected by the real lowering tables yields v, no panic; all u64 x u64, all $flag" % k))
+    src = src.replace("@CE_HARNESSES@", "\n    ".join(hs))
+    obs += [vf.Ob("ce_not_w64", "C06", panic_prop="C17", what="const_eval_intrinsic Not on u64: value == VM NOT"),
+            vf.Ob("ce_not_narrow", "C06", panic_prop="C17", known="D3", what="const_eval_intrinsic Not on u8/u16/u32: value == VM NOT")]
+    u = vf.KaniUnit("ceval_u64", {"src/lib.rs": src, "src/vm_alu.rs": open(vf.ROOT + "/spec/vm_alu.rs").read()}, obs, timeout_s=120, jobs=12)
+    u.fragments = [vf.frag_record(fr[k]) for k in fr]
+    u.rewrites = [{"rule": "R0", "before": "inner matches of const_eval_intrinsic copied verbatim into wrapper fns", "after": "", "times": 7}]
+    u.assumptions = ["Type shimmed to its integer width; ConstantContent/ConstantValue reduced to the Uint/Bool variants; Intr = (kind, span)",
+                     "operands of one intrinsic have the same type (asserted by the real code before the match)",
+                     "intrinsic kinds outside each group are unreachable!() and excluded by the call-site precondition (outer match arm)",
+                     "FuelVM ALU oracle spec/vm_alu.rs"]
+    return [u]
